@@ -778,6 +778,35 @@ def same_response_shape_case(ctx):
     return fails
 
 
+def unrooted_operation_case(ctx):
+    """Adding a root operation type is COMPATIBLE (`RootTypeAdded`), yet an operation of that kind is accepted by the
+    validator on the OLD schema, which has no such root type (no rule looks at it: the parent type is unknown, so
+    FieldsOnCorrectType stays silent), and is rejected on the new one (known finding G6; Lean:
+    `Props.C20.unrooted_operation_refutes`; `operations_stay_valid_rules` carries the hypothesis `OpsRooted`)."""
+    from py_gql import build_schema
+    from py_gql.lang import parse
+    from py_gql.validation import validate_ast
+    fails = []
+    base = "type Query { a: Int }"
+    for kind, root in (("mutation", "Mutation"), ("subscription", "Subscription")):
+        op = "%s { foo }" % kind
+        try:
+            o, n = build_schema(base), build_schema(base + " type %s { m: Int }" % root)
+            breaking = [c for c in diff_live_unsorted(o, n) if c[1] >= BREAKING]
+            ok_old = not validate_ast(o, parse(op)).errors
+            errs_new = validate_ast(n, parse(op)).errors
+        except Exception as e:  # noqa
+            fails.append(("unrooted-operation-case-raises:%s" % type(e).__name__, repr(e)))
+            continue
+        ctx.count()
+        ctx.stat("unrooted-operation-case")
+        if ok_old and not breaking and errs_new:
+            fails.append(("nobreaking-but-operation-invalid:unrooted-operation:%s" % kind,
+                          "type %s added: no BREAKING change reported, but `%s` (accepted before: the old schema has no %s type and "
+                          "no rule rejects the operation) now fails: %s" % (root, op, kind, str(errs_new[0])[:120])))
+    return fails
+
+
 def shape(t):
     return "N" if t[0] == "named" else ("L(%s)" % shape(t[1]) if t[0] == "list" else "%s!" % shape(t[1]))
 
@@ -876,6 +905,8 @@ def _run(ctx):
     want = ctx.n(4, 25)
     for sig, what in same_response_shape_case(ctx):
         ctx.fail(sig, what, {"same_response_shape_case": True, "what": what})
+    for sig, what in unrooted_operation_case(ctx):
+        ctx.fail(sig, what, {"unrooted_operation_case": True, "what": what})
     hash_order_stage(ctx)
     for e in EDITS:
         got = 0
@@ -1440,6 +1471,8 @@ def replay(ctx, data):
         return not code_default_case(ctx, inp["code_default_seed"])
     if inp.get("same_response_shape_case"):
         return not same_response_shape_case(ctx)
+    if inp.get("unrooted_operation_case"):
+        return not unrooted_operation_case(ctx)
     if "schema_case_seed" in inp:
         fails = one_case(ctx, inp["schema_case_seed"], want=inp.get("edit"))
         return not fails
